@@ -597,4 +597,57 @@ theorem fullyValid_of_ver {T : Tree} {s : State} (h : Safe T s) : ∀ b, s.ver b
     · obtain ⟨h1, h2, h3⟩ := h.verClosed b hv hb
       exact .step hb h1 h2 (ih _ (T.par_lt hb) h3)
 
+
+/-! ## Only `verify` touches the chain data -/
+
+theorem search_sameChain (T : Tree) (hint : List Nat) (s : State) : SameChain s (search T hint s).1 := by
+  unfold search
+  refine foldl_preserves (stepPool T s.pool) (fun acc => SameChain s acc.1) ?_ _ _ (SameChain.refl s)
+  intro acc c h
+  have hact := stepPool_act T s.pool acc c
+  generalize stepPool T s.pool acc c = r at hact ⊢
+  cases hact with
+  | skip _ => exact h
+  | accept _ _ => exact h
+  | reject _ _ => exact h
+
+theorem route_sameChain (T : Tree) (s : State) (b : Nat) : SameChain s (route T s b).1 := by
+  have hact := route_act T s b
+  generalize route T s b = r at hact ⊢
+  cases hact <;> exact ⟨rfl, rfl, rfl, rfl⟩
+
+theorem deliver_sameChain (T : Tree) (hint : List Nat) (s : State) (b : Nat) :
+    SameChain s (deliver T hint s b).1 := by
+  unfold deliver
+  by_cases hb : b = 0
+  · simp [hb]; exact SameChain.refl s
+  · simp only [hb, if_false]
+    by_cases hnc : T.nc b = true
+    · simp only [hnc, Bool.not_true, Bool.false_eq_true, if_false]
+      have h1 : SameChain s { s with seen := upd s.seen b true, stored := upd s.stored b true } :=
+        ⟨rfl, rfl, rfl, rfl⟩
+      exact (h1.trans (route_sameChain T _ b)).trans (search_sameChain T hint _)
+    · have : T.nc b = false := by simpa using hnc
+      simp only [this, Bool.not_false, if_true]
+      exact ⟨rfl, rfl, rfl, rfl⟩
+
+/-- a step that moves the tip is a best-block commit with strictly more accumulated work;
+every step leaves the tip's accumulated work at least as large -/
+theorem step_tip (T : Tree) (s : State) (op : Op) :
+    ((step T s op).1.tip = s.tip ∧ (step T s op).1.tipTd = s.tipTd) ∨ s.tipTd < (step T s op).1.tipTd := by
+  cases op with
+  | deliver b hint => left; obtain ⟨_, _, h3, h4⟩ := deliver_sameChain T hint s b; exact ⟨h3, h4⟩
+  | expire => left; obtain ⟨⟨_, _, h3, h4⟩, _⟩ := expire_frame T s; exact ⟨h3, h4⟩
+  | crash => left; exact ⟨rfl, rfl⟩
+  | verify =>
+    show ((verifyHead T s).1.tip = s.tip ∧ (verifyHead T s).1.tipTd = s.tipTd) ∨ s.tipTd < (verifyHead T s).1.tipTd
+    have hact := verifyHead_act T s
+    generalize verifyHead T s = r at hact ⊢
+    cases hact with
+    | empty _ => left; exact ⟨rfl, rfl⟩
+    | fail _ _ _ _ => left; exact ⟨rfl, rfl⟩
+    | known _ _ _ _ _ _ _ _ => left; exact ⟨rfl, rfl⟩
+    | side _ _ _ _ _ _ _ => left; exact ⟨rfl, rfl⟩
+    | best b q ptd _ _ _ hbest _ => right; exact hbest
+
 end CkbVerif.Chain
